@@ -18,7 +18,8 @@
 (*                                  for termination has returned           *)
 (* Not logged, inferred by TLC (silent steps): the moment a submission     *)
 (* takes effect and its outcome (acceptance order!), a consumer skipping a *)
-(* call whose context ended, Stop closing a lane, a consumer leaving.      *)
+(* call whose context ended, Stop closing a lane; a consumer leaving is    *)
+(* accounted for at the next `quiet`.                                      *)
 EXTENDS Lanes, Json, IOUtils
 
 TraceLog == ndJsonDeserialize(IOEnv.VERIF_TRACE)
@@ -69,11 +70,16 @@ TStart(e) ==
   /\ \A x \in LaneIds : x # e.lane => gor[x] # e.g
   /\ gor' = [gor EXCEPT ![e.lane] = e.g]
 
+(* Every goroutine is parked.  A consumer leaving is not logged and is seen  *)
+(* only here (leaving earlier or later changes nothing a caller or callee   *)
+(* can see), so the lanes that can leave do so now; the state reached must  *)
+(* be one in which nothing moves by itself.                                 *)
 TQuiet(e) ==
-  /\ Quiescent
-  /\ e.alive = Cardinality({x \in LaneIds : up[x]})
-  /\ e.term = (started /\ \A x \in LaneIds : ~up[x])
-  /\ UNCHANGED <<allvars, gor>>
+  /\ ExitSet({x \in LaneIds : CanExit(x)})
+  /\ Quiescent'
+  /\ e.alive = Cardinality({x \in LaneIds : up'[x]})
+  /\ e.term = (started /\ \A x \in LaneIds : ~up'[x])
+  /\ UNCHANGED <<last, gor>>
 
 Consume ==
   /\ pos <= Len(TraceLog) /\ pos' = pos + 1
@@ -94,6 +100,9 @@ Consume ==
          [] e.ev = "cancel" -> Step([op |-> "cancel", c |-> e.c]) /\ UNCHANGED gor
          [] OTHER -> FALSE
 
+(* Silent steps.  Stop closing a lane before it returns matters only to a    *)
+(* submission that is still pending (and, for pchan, to a waiting caller,   *)
+(* who may be told "closed"), so it is inferred only then.                  *)
 Silent ==
   /\ pos <= Len(TraceLog) /\ TraceLog[pos].ev # "reset"
   /\ UNCHANGED <<pos, gor>>
@@ -101,7 +110,10 @@ Silent ==
           \/ Step([op |-> "skip", c |-> c])
           \/ \E r \in {"ok", "full", "closed"}, x \in LaneIds :
                Step([op |-> "enq", c |-> c, r |-> r, l |-> x])
-     \/ \E x \in LaneIds : Step([op |-> "close", l |-> x]) \/ Step([op |-> "exit", l |-> x])
+     \/ \E x \in LaneIds :
+          /\ \E c \in Calls : \/ cw[c] = "called" /\ slot[info[c].h] \in {Unknown, x}
+                              \/ cw[c] = "wait" /\ kind = "pchan"
+          /\ Step([op |-> "close", l |-> x])
 
 TraceNext == Consume \/ Silent
 TraceSpec == TraceInit /\ [][TraceNext]_tvars
